@@ -43,6 +43,9 @@ DoTick == /\ tickp /\ tickp' = FALSE
           /\ ~gave /\ Keep /\ UNCHANGED <<l, ph, gave>>
 
 Snap(bb) == [st |-> bb.st, cur |-> bb.cur, succ |-> bb.succ, fail |-> bb.fail, rem |-> bb.rem, gen |-> bb.gen]
+\* the counters the statement's rules read: consecutive failures while closed (the trip rule), consecutive successes while
+\* half-open (the reset rule). What an implementation keeps in the counter the current state does not read is its own business.
+Read(bb) == [Snap(bb) EXCEPT !.succ = IF bb.st = "half" THEN bb.succ ELSE 0, !.fail = IF bb.st = "closed" THEN bb.fail ELSE 0]
 
 \* Every run is followed on two lanes chosen at its reset line: the explaining lane (gave = FALSE), which
 \* dies when no order of the silent steps explains the log, and a blind lane that merely consumes the
@@ -63,7 +66,7 @@ Event ==
                                      /\ ph' = [ph EXCEPT ![r.c] = "none"] /\ UNCHANGED <<b, call, tickp>>
                   [] r.ev = "tickreq" -> ~tickp /\ tickp' = TRUE /\ UNCHANGED <<b, call, ph>>
                   [] r.ev = "tickdone" -> ~tickp /\ UNCHANGED <<b, call, ph, tickp>>
-                  [] r.ev = "final" -> Snap(Lazy(S0(b, call)).b) = Snap(Lazy(S0(r.snap, call)).b) /\ PrintT(<<"EXPLAINED", l>>) /\ UNCHANGED <<b, call, ph, tickp>>
+                  [] r.ev = "final" -> Read(Lazy(S0(b, call)).b) = Read(Lazy(S0(r.snap, call)).b) /\ PrintT(<<"EXPLAINED", l>>) /\ UNCHANGED <<b, call, ph, tickp>>
    /\ Keep /\ Consume
 
 TNext == Event \/ DoTick \/ \E c \in Calls : DoBefore(c) \/ DoAfter(c)
